@@ -171,6 +171,8 @@ def execute_one(check, run, cov, wall_cap):
     log = []
     old = signal.signal(signal.SIGALRM, _alarm)
     signal.alarm(int(wall_cap))
+    saved_stdout = sys.stdout
+    sys.stdout = _Quiet()  # the repo prints progress lines
     try:
         check.execute(run, cov, log)
         return 'ok', None, digest(log)
@@ -186,6 +188,7 @@ def execute_one(check, run, cov, wall_cap):
             raise
         return 'error', traceback.format_exc(), digest(log)
     finally:
+        sys.stdout = saved_stdout
         signal.alarm(0)
         signal.signal(signal.SIGALRM, old)
 
